@@ -120,9 +120,26 @@ def with_semantics(R, P, shape_fn, verdict, what, fi, rule="SEMANTICS", scope=No
     the pure fragment).  True: what the shape rule could not recognise is an undecided instance, not a violation.  False: the semantic
     mismatch is the finding (and the shape findings stay).  None: the shape rule decides alone."""
     from ..report import Result
+    from ..loader import AnalysisError
     T = Result(P, "")
-    shape_fn(T)
     ok, detail = verdict
+    from .. import report as _report
+    n0 = len(_report.DEFERRED)
+    try:
+        try:
+            shape_fn(T)
+        finally:
+            if ok is not None:
+                # floors of the shape rule that the restructured code no longer reaches: the folding decides
+                for msg in _report.DEFERRED[n0:]:
+                    T.unknown(rule, "%s (instances)" % what, fi.key if fi is not None else "", "shape rule below its floor (%s); decided by folding" % msg[:140])
+                del _report.DEFERRED[n0:]
+    except AnalysisError as e:
+        # the shape rule lost its anchor (restructured code): the bounded semantic comparison decides, when it could be made
+        if ok is None:
+            raise
+        T.unknown(rule, "%s (shape)" % what, fi.key if fi is not None else "", "shape analysis not applicable to the restructured code (%s); "
+                  "decided by folding" % str(e)[:160])
     for o in T.obligations:
         if o["status"] == "discharged":
             R.ok(o["rule"], o["instance"], o["where"], nontrivial=o["nontrivial"])
